@@ -269,10 +269,10 @@ def block_line(it, bb):
 def innermost_loop(it, bb):
     """(head, set of blocks) of the smallest natural loop containing bb, or None."""
     best = None
-    for (u, h) in it.back_edges:
-        # natural loop of back edge u->h
+    for h in sorted(set(h_ for (_, h_) in it.back_edges)):
+        # the natural loop of ALL back edges into h (a `continue` and the end of the body are two back edges of one loop)
         loop = {h}
-        stack = [u]
+        stack = [u_ for (u_, h_) in it.back_edges if h_ == h]
         while stack:
             x = stack.pop()
             if x in loop:
